@@ -20,6 +20,7 @@ ops   = <op>;<op>;…                        fields of an op are separated by ':
        item = <edit> | v,<sys>,<form>,<d>,<path>   the modifier reads system <sys>'s view while it runs  (answer as rv)
                      | a,<sys>,<form>,<d>,<path>   … through the four routes                              (answer as ra)
        edit = u,<path>,<a>,<b|->,<v|null>    parameters.<path>.update(start=a, stop=b, value=v)
+            | c,<path>,<name>,<k>             parameters.<path>.add_child(name, tree k)
             | r,<k>                           the modifier returns tree k instead
             | x                               the modifier returns something that is not a ParameterNode
   ld:<s>:<k>[:<item>+…]                    system.load_parameters(directory holding tree k); the items (reads only)
